@@ -58,7 +58,7 @@ def make_jobs(ck, want_c10=False):
         for j in range(per):
             kind = M.KINDS[(j + rnd.randrange(5)) % 5]
             conf = (kind, rnd.randrange(3), rnd.choice([0.05, 0.2, 0.5]), rnd.choice([1, 3, 8, 8, 20, 50]), rnd.random() < 0.6,
-                    rnd.choice([0.5, 2.0]), rnd.choice([None, 1e-3, 0.05, 0.3]), rnd.randrange(2))
+                    rnd.choice([0.5, 2.0]), rnd.choice([None, 1e-3, 0.05, 0.3, 0.0]), rnd.randrange(2))
             jobs.append((c, conf, ck.seed, want_c10))
     return jobs
 
